@@ -74,6 +74,17 @@ func init() {
 			}
 			rep.ConcRuns++
 		}
+		if *conc > 0 {
+			for _, n := range []int{5, 17, 40, 300} {
+				for _, m := range gatedrep.RunScale(n, cfg.BrokerSet) {
+					rep.MismatchN++
+					for _, p := range m.Props {
+						rep.ByProp[p]++
+					}
+					rep.Mismatches = append(rep.Mismatches, m)
+				}
+			}
+		}
 		if *conc > 0 && cfg.BrokerSet {
 			for i := 0; i < 150**conc; i++ {
 				for _, m := range gatedrep.RunTicking(int64(i)*131 + int64(cfg.E)) {
